@@ -70,6 +70,7 @@ func shrinkPlan(plan *Plan, fails func(*Plan) bool) *Plan {
 				},
 				func(s *EntitySpec) bool { ok := s.Style != 0; s.Style = 0; return ok },
 				func(s *EntitySpec) bool { ok := s.Bulk != 0; s.Bulk = 0; return ok },
+				func(s *EntitySpec) bool { ok := s.Enc != ""; s.Enc = ""; return ok },
 				func(s *EntitySpec) bool { ok := s.Dir != ""; s.Dir = ""; return ok },
 				func(s *EntitySpec) bool {
 					ok := len(s.Subject) > 1
